@@ -1,4 +1,5 @@
 import MoPepGen.Lemmas.SpecMono
+import MoPepGen.Lemmas.Graph
 import MoPepGen.Props.C10
 /-!
 # C01 — completeness of callVariant  (PARTIAL: the graph construction is not modelled)
@@ -87,5 +88,80 @@ theorem digest_is_C10 (c : CleaveCfg) (prot : Pep) (nf : Bool) (p : Pep) :
         (bounds ((List.range (prot.length + 1)).filter (isSite c.rule c.exc prot)) prot.length)
         c.misc nf := by
   rw [rawProducts_eq_candidates, Props.C10.sites_eq_isSite]
+
+
+/-! ## Layer G — refinement checkpoints inside the graph algorithm (completeness side)
+
+The harness dumps the real graph after each stage of the graph algorithm and the native
+driver evaluates the checkpoint predicates of `Model/Graph.lean` on it (`G` stream).  The
+theorems below say why those checkpoints are the right ones for completeness:
+the position automaton `apply_variant` builds carries EVERY compatible combination; the
+driver's path enumeration misses no path; node-wise translation of a codon-aligned path is
+the translation of its sequence; and when every cleavage site of a path is a node boundary,
+every digestion product of the path's protein is a concatenation of consecutive whole nodes
+(which is what `call_variant_peptides` joins). -/
+
+open MoPepGen.Graph in
+/-- CP1, completeness: every compatible combination of the record pool is a walk of the
+position automaton of the transcript variant graph, emitting the transcript that carries it.
+Hypothesis = what `create_variant_graph`'s filter guarantees: records lie inside the
+transcript behind its first base. -/
+theorem tvg_automaton_complete (t : TxIn) (vs h : List Var) (hh : h ∈ haplotypes t vs)
+    (hwf : ∀ v ∈ recordPool t vs, 0 < v.start ∧ v.start < v.stop ∧ v.stop ≤ t.seq.length) :
+    Walk t.seq (recordPool t vs) 0 false (applyHap t.seq h) h := by
+  have hmem := haplotype_records_usable t vs h hh
+  obtain ⟨s, _, _, _, hsep⟩ := (haplotype_spec t vs h).mp hh
+  have hsf : SepFrom 0 true h := by
+    apply sepFrom_of_separated h 0 true hsep (fun v hv => (hwf v (hmem v hv)).2.1)
+    cases h with
+    | nil => trivial
+    | cons v _ => simpa using (hwf v (hmem v (by simp))).1
+  have := walk_complete t.seq (recordPool t vs) t.seq.length 0 false h (by omega) hmem
+    (by simpa using hsf) (fun v hv => (hwf v (hmem v hv)).2.2)
+  simpa [applyHap] using this
+
+open MoPepGen.Graph in
+/-- the driver's path enumeration misses no maximal path of an acyclic dump -/
+theorem paths_complete (g : Graph) (i : Nat) (p : List Nat) (hp : MaxPath g i p)
+    (hnd : p.Nodup) : p ∈ paths g i :=
+  (mem_paths_iff g i p hnd).mpr hp
+
+open MoPepGen.Graph in
+/-- CP2 ⇒ CP3: on a codon-aligned path, translating node by node (what
+`ThreeFrameTVG.translate` does) is translating the path's sequence -/
+theorem nodewise_translation (g : Graph) (p : List Nat) (h : codonAligned g p = true) :
+    translatePath g p = translate (pathSeq g p) :=
+  translatePath_eq g p h
+
+open MoPepGen.Graph in
+/-- CP4 ⇒ products are node joins: if every cleavage site of the protein `pieces.flatten` is a
+boundary between two pieces (graph nodes), then every candidate of the digest — a slice
+between two boundaries `0, sites…, |prot|` — is the concatenation of consecutive whole pieces -/
+theorem digest_product_is_node_join (pieces : List (List Char)) (rule : Re) (exc : Option Re)
+    (hsites : ∀ s ∈ cleaveSites rule exc pieces.flatten, s ∈ cuts pieces)
+    (a b : Nat)
+    (ha : a ∈ bounds (cleaveSites rule exc pieces.flatten) pieces.flatten.length)
+    (hb : b ∈ bounds (cleaveSites rule exc pieces.flatten) pieces.flatten.length)
+    (hab : a ≤ b) :
+    ∃ i k, slice pieces.flatten a b = ((pieces.drop i).take k).flatten := by
+  have hcut : ∀ x ∈ bounds (cleaveSites rule exc pieces.flatten) pieces.flatten.length,
+      x ∈ cuts pieces := by
+    intro x hx
+    simp only [bounds, List.mem_cons, List.mem_append, List.not_mem_nil, or_false] at hx
+    rcases hx with rfl | hx | rfl
+    · exact zero_mem_cuts pieces
+    · exact hsites x hx
+    · exact length_mem_cuts pieces
+  exact slice_is_join pieces a b (hcut a ha) (hcut b hb) hab
+
+/-! non-vacuity of `tvg_automaton_complete`: a transcript with one SNV behind the start codon -/
+example : (∀ v ∈ recordPool
+    { seq := "ATGGCC".toList, coding := true, orfStart := 0, orfEnd := 6, startNF := false,
+      endNF := false, sec := [] }
+    [{ start := 3, stop := 4, ref := ['G'], alt := ['T'], cls := .snv, ids := [0] }],
+    0 < v.start ∧ v.start < v.stop ∧ v.stop ≤ 6) := by decide
+
+open MoPepGen.Graph in
+example : cuts ["AK".toList, "CR".toList, "D".toList] = [0, 2, 4, 5] := by decide
 
 end MoPepGen.Props.C01
